@@ -25,7 +25,7 @@ def section(rx):
     return re.sub(r"\s+", " ", m.group(2)).strip()[:1500] if m else ""
 
 
-confirm = next((r for r in results if "demo_with_change_rc" in r), {})
+confirm = next((r for r in reversed(results) if "demo_with_change_rc" in r), {})
 checks = {}
 for r in results:
     for pid, c in r.get("checks", {}).items():
